@@ -678,6 +678,7 @@ package rlwe
 // ==== metadata of the input and the COMMON level of input and receiver (finding F46).  The gadget product is NAMED (uf_gp0, uf_gp1), not interpreted.
 //@ afunc Evaluator.ApplyEvaluationKey
 //@   property C04
+//@   assigns opOut.Value[0], opOut.Value[1]
 //@   case len(ctIn.Value) == 2 && len(opOut.Value) == 2
 //@   case len(ctIn.Value) == 2 ; alias opOut = ctIn
 //@   requires len(ctIn.Value[0].Coeffs) >= 1 && len(opOut.Value[0].Coeffs) >= 1 && len(ctIn.Value[0].Coeffs[0]) == len(opOut.Value[0].Coeffs[0])
@@ -692,6 +693,7 @@ package rlwe
 
 //@ afunc Evaluator.Relinearize
 //@   property C04
+//@   assigns opOut.Value[0], opOut.Value[1]
 //@   nilable
 //@   case len(ctIn.Value) == 3 && len(opOut.Value) == 2
 //@   case len(ctIn.Value) == 3 && len(opOut.Value) == 3
@@ -714,6 +716,7 @@ package rlwe
 // ---- common level of input and receiver
 //@ afunc Evaluator.Automorphism
 //@   property C04
+//@   assigns opOut.Value[0], opOut.Value[1]
 //@   case len(ctIn.Value) == 2 && len(opOut.Value) == 2 && !ctIn.MetaData.CiphertextMetaData.IsNTT
 //@   case len(ctIn.Value) == 2 && !ctIn.MetaData.CiphertextMetaData.IsNTT ; alias opOut = ctIn
 //@   case len(ctIn.Value) == 2 && len(opOut.Value) == 2 && ctIn.MetaData.CiphertextMetaData.IsNTT
@@ -745,3 +748,22 @@ package rlwe
 //@   loop 0 invariant 0 <= i && i <= len(base) && len(base) == len(p.qi) && forall(k, 0, i, base[k] == 1)
 //@   loop 1 invariant 0 <= i && i <= len(base) && len(base) == len(p.qi) && forall(k, 0, i, base[k] * Base2Decomposition >= bitlen(p.qi[k]))
 //@   loop 1 lemma div_ceil(bitlen(p.qi[i - 1]), Base2Decomposition)
+
+//@ afunc Parameters.GaloisElement
+//@   trusted at the abstract level the Galois element of a rotation is NAMED (uf_galel(k)); that it is 5^k modulo the order of the roots is the typed-AST contract of property C11
+//@   assigns
+//@   ensures result == uf_galel(k)
+//@ afunc Parameters.GaloisElementOrderTwoOrthogonalSubgroup
+//@   trusted at the abstract level the element of order two is NAMED (uf_galconj); that it is NthRoot - 1 is the typed-AST contract of property C11
+//@   assigns
+//@   ensures result == uf_galconj(contentid(p))
+
+//@ afunc AddPolyTimesGadgetVectorToGadgetCiphertext
+//@   trusted opaque at the abstract level (the plaintext times the gadget vector is added to the rows: digit arithmetic); the plaintext must be in the NTT domain and in Montgomery form; writes the gadget ciphertexts and the buffer (which may be the plaintext itself)
+//@   requires isntt(pt) && mexp(pt) == 1
+//@   assigns buff
+
+//@ afunc Encryptor.EncryptZero
+//@   trusted at call sites outside this package's own contracts: an encryption of zero into the receiver (verified per receiver kind under encryptZeroSk#ciphertext, encryptZeroSkFromC1(QP), encryptZeroPkNoP); the receiver must be an actual object, not a nil pointer in an interface
+//@   requires !isnil(unbox(ct))
+//@   assigns
